@@ -118,7 +118,14 @@ fn op(r: &mut R) -> Op {
                 Op::Reset(raw_cfg(r))
             }
         }
-        3..=4 => Op::ResetBad { variant: r.below(8) as u8, cfg: raw_cfg(r) },
+        3 => Op::ResetBad { variant: r.below(8) as u8, cfg: raw_cfg(r) },
+        4 => {
+            if r.bool() {
+                Op::ResetRetry { cfg: raw_cfg(r), zero: r.bool() }
+            } else {
+                Op::ResetBad { variant: r.below(8) as u8, cfg: raw_cfg(r) }
+            }
+        }
         5 => {
             let k = [Kind::Default, Kind::High, Kind::Low][r.below(3)];
             Op::Recycle { kind: k, eng: pick_engine(r.u8()), cfg: raw_cfg(r), same: r.below(5) < 2 }
